@@ -114,7 +114,9 @@ class BlackJAXSMC(SMCSampler):
         rng_key : jax.random.key| None
             JAX random key for reproducibility.
         """
-        self.sampler_kwargs = sampler_kwargs or {}
+        # Work on a copy: the caller's dictionary must not lose entries
+        # (e.g. n_final_steps) or gain defaults between calls
+        self.sampler_kwargs = dict(sampler_kwargs or {})
         self.sampler_kwargs.setdefault("n_steps", 5 * self.dims)
         self.sampler_kwargs.setdefault("algorithm", "nuts")
         self.sampler_kwargs.setdefault("step_size", 1e-3)
